@@ -7,10 +7,12 @@ import IrVerif.Props.C04
 #print axioms IrVerif.Pack.C04_pack_unpack2
 #print axioms IrVerif.Pack.C04_le_roundtrip
 #print axioms IrVerif.Pack.C04_nbytes
+#print axioms IrVerif.Pack.C04_pack_bitstream
 #print axioms IrVerif.TensorRepr.C04_tables
 #print axioms IrVerif.TensorRepr.C04_field_agree
 #print axioms IrVerif.TensorRepr.C04_all_agree
 #print axioms IrVerif.TensorRepr.C04_bytes_len
 #print axioms IrVerif.TensorRepr.C04_tofile_at
+#print axioms IrVerif.TensorRepr.C04_tofile_paths
 #print axioms IrVerif.TensorRepr.C04_tofile_repr
 #print axioms IrVerif.TensorRepr.C04_serialize_roundtrip
